@@ -106,7 +106,7 @@ def _answer_for(req, kind):
     return ans
 
 
-OUTCOMES = ["answer", "none", "str", "request", "raises", "err_preset"]
+OUTCOMES = ["answer", "none", "str", "request", "raises", "err_preset", "raises_noargs", "raises_assert", "raises_nested", "fresh_request", "int"]
 
 
 def dispatch(target: int, outcome: int, hbh: int, e2e: int, sid: bytes) -> bool:
@@ -132,6 +132,19 @@ def dispatch(target: int, outcome: int, hbh: int, e2e: int, sid: bytes) -> bool:
                 return "not an answer"
             if kind == "request":
                 return request
+            if kind == "fresh_request":
+                return DiameterRequest(command_code=request.header.command_code, application_id=request.header.application_id)
+            if kind == "int":
+                return 2001
+            if kind == "raises_noargs":
+                raise KeyError()                     # an exception without arguments
+            if kind == "raises_assert":
+                assert request is None               # AssertionError, no arguments
+            if kind == "raises_nested":
+                try:
+                    {}["missing"]
+                except KeyError as inner:
+                    raise RuntimeError(("tuple", 1), b"bytes") from inner
             raise ValueError("handler failed")
         if not P["same_name"]:
             handler.__name__ = f"handler_{idx}"
@@ -199,12 +212,12 @@ def queries(tier, seed):
                 qs.append(Q(f"dispatch/{name}/{'same' if same else 'distinct'}_names/L{L}", "dispatch",
                             {"table": tb, "same_name": same, "L": L}, cto=t, pto=t,
                             what=f"route table {name} ({len(tb)} pairs), handlers {'share one __name__' if same else 'have distinct names'}: "
-                                 f"target pair, handler outcome (6 kinds), ids and Session-Id ({L} bytes) symbolic"))
+                                 f"target pair, handler outcome (11 kinds), ids and Session-Id ({L} bytes) symbolic"))
     return qs
 
 
 BOUNDS = ["route tables over 2 applications x 2 command codes (5 shapes incl. a code shared across applications)",
-          "handler outcomes: answer, answer with E preset, None, str, the request object, raises ValueError", "identifiers: all 32-bit values; "
+          "handler outcomes: answer, answer with E preset, None, str, int, the request object, a fresh request, raises ValueError(msg) / KeyError() without arguments / AssertionError / chained RuntimeError with non-str arguments", "identifiers: all 32-bit values; "
           "Session-Id: all byte strings of the grid length"]
 OUTSIDE = ["requests for an unregistered (application, command) pair", "requests without Session-Id / Origin-Host / Origin-Realm (the fallback answer "
            "is defined in terms of them)", "handlers raising BaseException subclasses that are not Exception",
